@@ -416,6 +416,50 @@ class C19(Prop):
                                             with_common=False, exclude_objs=("backend.c.o",))
         return self.hb_exe
 
+    def be(self, ctx):
+        """the full driver under ThreadSanitizer (harness/c19/c19be.c + harness/common/vh.c, base mudlib)"""
+        if getattr(self, "be_exe", None) is None:
+            self.be_exe = E.compile_harness("c19be", [os.path.join(E.VERIF, "harness/c19/c19be.c")], kind="tsan",
+                                            extra=["-Wl,--wrap=platform_timer_start"])
+            self.be_conf = E.make_mudlib(os.path.join(ctx.rundir, "be"))
+        return self.be_exe
+
+    def _run_be(self, ctx, cases, env):
+        """run through vh_main; ThreadSanitizer reports are taken from the kept stderr of every case"""
+        import re
+        rundir = os.path.join(ctx.rundir, "be")
+        keep = os.path.join(rundir, "stderr")
+        os.makedirs(keep, exist_ok=True)
+        exe = self.be(ctx)
+        p = E.run([exe, "--conf", self.be_conf, "--scratch", rundir, "--keep-stderr", keep, "--timeout", "120"],
+                  input=E.cases_text(cases), env=env, timeout=3000, cwd=rundir)
+        res = E.parse_cases_output(p.stdout)
+        for c in cases:
+            if c.id not in res:
+                res[c.id] = ["crash harness-process rc=%d" % p.returncode]
+            races = set()
+            try:
+                for line in open(os.path.join(keep, c.id + ".stderr"), errors="replace"):
+                    m = re.search(r"SUMMARY: ThreadSanitizer: ([^/(]+?)\s+\S*\s*in (\S+)", line) or \
+                        re.search(r"SUMMARY: ThreadSanitizer: ([^/(]+?)\s*[/(]", line)
+                    if m:
+                        kind = m.group(1).strip().replace(" ", "-")
+                        fn = m.group(2) if m.lastindex and m.lastindex >= 2 else "?"
+                        races.add("race %s %s" % (kind, fn))
+            except OSError:
+                pass
+            # the console lines travel console worker -> line queue -> completion -> process_io -> the user object of
+            # the base mudlib, which echoes them: if it does (its output format belongs to harness/mudlib, so their absence
+            # is not judged), they must be all of them, once, in order
+            seq = [int(m.group(1)) for l in res[c.id] for m in [re.search(r"c19 console line (\d+)", l)] if m]
+            want = [int(t[3]) for l in c.lines for t in [l.split()] if len(t) == 5 and t[:2] == ["mt", "backend"]]
+            out = [l for l in res[c.id] if l.startswith(("mt ", "crash", "race ", "skip"))]
+            if seq and want and seq != list(range(want[0])) and out and out[0] == "mt backend ok":
+                out[0] = "mt backend bad console-lines-through-the-real-backend expected=0..%d got=%s" % (
+                    want[0] - 1, ",".join(map(str, seq[:12])))
+            res[c.id] = out + sorted(races)
+        return res
+
     def _run(self, exe, cases, rundir, env):
         os.makedirs(rundir, exist_ok=True)
         p = E.run([exe, "--scratch", rundir], input=E.cases_text(cases), env=env, timeout=3000, cwd=rundir)
@@ -426,11 +470,15 @@ class C19(Prop):
         return res
 
     def run_impl(self, ctx, cases):
+        be = [c for c in cases if "#tsan-be" in c.lines]
+        cases = [c for c in cases if "#tsan-be" not in c.lines]
         plain = [c for c in cases if "#tsan" not in c.lines and "#tsan-hb" not in c.lines]
         ts = [c for c in cases if "#tsan" in c.lines]
         hb = [c for c in cases if "#tsan-hb" in c.lines]
         res = {}
         tsan_env = {"TSAN_OPTIONS": "halt_on_error=0:exitcode=66:report_thread_leaks=0:second_deadlock_stack=1"}
+        if be:
+            res.update(self._run_be(ctx, be, tsan_env))
         if hb:
             res.update(self._run(self.hb(), hb, ctx.rundir, tsan_env))
         if plain:
@@ -525,6 +573,9 @@ class C19(Prop):
             mk("tsan-" + name, ["#tsan"] + lines)
         # repaired: heart_beat_flag raced between the timer thread and the backend (real callback vs real call_heart_beat)
         mk("tsan-heart-beat-flag", ["#tsan-hb", "hbrace 60"])
+        # the FULL backend() loop of the initialised driver under ThreadSanitizer: real timer thread (2 ms), real console
+        # worker on a pipe, the backend thread - 300 cycles, 40 console lines
+        mk("tsan-backend-loop", ["#tsan-be", "mt backend 300 40 2000"])
         # the real callback run INSIDE the real call_heart_beat (interposed time()): the tick must still be owed
         mk("heart-beat-tick-in-round", ["#tsan-hb", "hbowed", "hbowed"])
         # repaired: async_queue_clear left a writer blocked on the full queue asleep (nothing ever set not_full again)
